@@ -15,10 +15,19 @@ def run_cases(vh, cases, workdir, tag="seq", mode="seq"):
     r = common.run(["timeout", "600", vh, mode, cp, go_obs])
     if r.returncode != 0:
         raise RuntimeError("go harness failed: rc=%d %s" % (r.returncode, (r.stdout + r.stderr)[-2000:]))
-    r = common.run(["timeout", "1200", SEQDRIVER, cp, mo_obs])
+    # cases flagged nomodel (very large orders: the list-based model is quadratic there) are decided by the
+    # monitor alone; the model runs on the others
+    mcases = [c for c in cases if not c.get("nomodel")]
+    mp = os.path.join(workdir, tag + ".mcases")
+    gen.write_cases(mcases, mp)
+    r = common.run(["timeout", "2400", SEQDRIVER, mp, mo_obs])
     if r.returncode != 0:
-        raise RuntimeError("model driver failed: " + (r.stdout + r.stderr)[-2000:])
-    return parse_obs(go_obs), parse_obs(mo_obs)
+        raise RuntimeError("model driver failed: rc=%s %s" % (r.returncode, (r.stdout + r.stderr)[-2000:]))
+    g, m = parse_obs(go_obs), parse_obs(mo_obs)
+    for c in cases:
+        if c.get("nomodel"):
+            m[c["id"]] = g.get(c["id"], [])
+    return g, m
 
 
 LINE = re.compile(r"^(\S+) (-?\d+) (.*?) \| (.*)$")
